@@ -1,91 +1,72 @@
-(* MaskNamesProps.v — the theorems of Proofs/MaskNames.v in the exact form of the
+(* MaskNamesProps.v — the theorems of Proofs/MaskNames.v in the form of the
    bounded theorems C03_mask_exact_U2 / C19_partial_exact_U2 of Props/C03.v and
-   Props/C19.v (same extended call, same side conditions), with the universe
-   membership replaced by valid_sig + NoDup. *)
+   Props/C19.v (same extended call), with the universe membership replaced by
+   valid_sig + NoDup, and with the weakest side conditions on the names that are
+   true of the model (after the repair of _mask: a consumed positional-only
+   parameter is not "already bound"). *)
 From Sigtools.Model Require Import Universe.
 From Sigtools.Proofs Require Import SmallModel Basics MaskLaws MaskExact SweepDefs SweepDefs2
      MaskNamesLib MaskNamesStep MaskNames.
 
-Lemma names_avoid_po_consumed ps n names0 :
-  names_avoid_po ps names0 = true -> avoid_consumed_po ps n names0 = true.
-Proof.
-  unfold names_avoid_po, avoid_consumed_po. intros H. apply andb_true_iff in H. destruct H as [H _].
-  rewrite forallb_forall in *. intros x Hx. specialize (H x Hx). apply negb_true_iff in H. apply negb_true_iff.
-  destruct (existsb (fun p => is_kind PO p && N.eqb x (pname p)) (firstn n ps)) eqn:E; [|reflexivity].
-  apply existsb_exists in E. destruct E as [q [Hq E]].
-  assert (X : existsb (fun p => is_kind PO p && N.eqb x (pname p)) ps = true).
-  { apply existsb_exists. exists q. split; [|exact E].
-    rewrite <- (firstn_skipn n ps). apply in_or_app. left. exact Hq. }
-  rewrite X in H. discriminate.
-Qed.
-
-(* C03_exact + C03_raises for ALL signatures: C03_mask_exact_U2 without the bound *)
+(* C03_exact + C03_raises for ALL signatures and ALL duplicate-free name tuples:
+   C03_mask_exact_U2 without the bound and without names_avoid_po *)
 Theorem C03_names_exact ps n names0 :
-  valid_sig ps = true -> NoDup names0 -> names_avoid_po ps names0 = true ->
+  valid_sig ps = true -> NoDup names0 ->
   match mask (mk ps) n names0 nohide with
   | Ok r => forall c, disjointb (kws c) names0 = true -> noncolliding c (params r) [ps] = true ->
                       accepts (params r) c = accepts ps (shift_call n names0 c)
   | Err e => e = ValueErr /\
              forall c, disjointb (kws c) names0 = true -> accepts ps (shift_call n names0 c) = false
   end.
-Proof.
-  intros Hv Hnd Hav.
-  exact (mask_names_exact (mk ps) n names0 Hv Hnd (names_avoid_po_consumed ps n names0 Hav)).
-Qed.
+Proof. intros Hv Hnd. exact (mask_names_exact (mk ps) n names0 Hv Hnd). Qed.
 
-(* no name is the name of a star parameter *)
-Definition names_avoid_stars (ps : list param) (names0 : list name) : bool :=
-  forallb (fun k => negb (existsb (fun p => (is_kind VP p || is_kind VK p) && N.eqb k (pname p)) ps)) names0.
-
-Lemma names_avoid_passable ps names0 :
-  names_avoid_po ps names0 = true -> names_avoid_stars ps names0 = true -> names_passable ps names0 = true.
+(* the side conditions of the bounded theorem imply the one needed in general *)
+Lemma names_avoid_passable_n ps n names0 :
+  names_avoid_po ps names0 = true -> names_avoid_stars ps names0 = true ->
+  names_passable_n ps n names0 = true.
 Proof.
-  unfold names_avoid_po, names_avoid_stars, names_passable. intros H1 H2.
+  unfold names_avoid_po, names_passable_n, avoid_remaining_po. intros H1 H2. rewrite H2, andb_true_r.
   apply andb_true_iff in H1. destruct H1 as [H1 _].
-  rewrite forallb_forall in *. intros x Hx. specialize (H1 x Hx). specialize (H2 x Hx).
-  apply negb_true_iff in H1. apply negb_true_iff in H2. apply negb_true_iff.
-  destruct (existsb (fun p => negb (is_kwpassable p) && N.eqb x (pname p)) ps) eqn:E; [|reflexivity].
-  apply existsb_exists in E. destruct E as [q [Hq E]]. apply andb_true_iff in E. destruct E as [E1 E2].
-  unfold is_kwpassable in E1. destruct (pkind q) eqn:Ek; try discriminate.
-  - assert (X : existsb (fun p => is_kind PO p && N.eqb x (pname p)) ps = true).
-    { apply existsb_exists. exists q. split; [exact Hq|]. unfold is_kind. rewrite Ek, E2. reflexivity. }
-    rewrite X in H1. discriminate.
-  - assert (X : existsb (fun p => (is_kind VP p || is_kind VK p) && N.eqb x (pname p)) ps = true).
-    { apply existsb_exists. exists q. split; [exact Hq|]. unfold is_kind. rewrite Ek, E2. reflexivity. }
-    rewrite X in H2. discriminate.
-  - assert (X : existsb (fun p => (is_kind VP p || is_kind VK p) && N.eqb x (pname p)) ps = true).
-    { apply existsb_exists. exists q. split; [exact Hq|]. unfold is_kind. rewrite Ek, E2. reflexivity. }
-    rewrite X in H2. discriminate.
+  rewrite forallb_forall in *. intros x Hx. specialize (H1 x Hx).
+  apply negb_true_iff in H1. apply negb_true_iff.
+  destruct (existsb (fun p => is_kind PO p && N.eqb x (pname p)) (skipn n ps)) eqn:E; [|reflexivity].
+  apply existsb_exists in E. destruct E as [q [Hq E]].
+  assert (X : existsb (fun p => is_kind PO p && N.eqb x (pname p)) ps = true).
+  { apply existsb_exists. exists q. split; [|exact E].
+    rewrite <- (firstn_skipn n ps). apply in_or_app. right. exact Hq. }
+  rewrite X in H1. discriminate.
 Qed.
 
-(* C19_exact for ALL functions: C19_partial_exact_U2 without the bound (any bound
-   values, any partial object); over U(2,{a,b}) names_avoid_stars holds for every
-   tuple of the sweep, the star parameters being named 9 and 10 there *)
+(* C19_exact for ALL functions, any bound values, any partial object: the bound
+   keywords may be keyword-passable parameters, foreign names (with **kwargs) and
+   the names of positional-only parameters among the n bound positionals; not a
+   remaining positional-only parameter, nor a star parameter (refutations in
+   Proofs/MaskNames.v).  Over U(2,{a,b}) names_avoid_po and names_avoid_stars give
+   the condition (names_avoid_passable_n). *)
 Theorem C19_names_exact ps n names0 (v : name -> N) pobj :
-  valid_sig ps = true -> NoDup names0 -> names_avoid_po ps names0 = true ->
-  names_avoid_stars ps names0 = true ->
+  valid_sig ps = true -> NoDup names0 -> names_passable_n ps n names0 = true ->
   match sig_partial (mk ps) n (map (fun k => (k, v k)) names0) pobj with
   | Ok r => forall c, noncolliding c (params r) [ps] = true ->
                       accepts (params r) c = accepts ps (partial_call n names0 c)
   | Err e => e = ValueErr /\ forall c, accepts ps (partial_call n names0 c) = false
   end.
 Proof.
-  intros Hv Hnd Hav Hst.
+  intros Hv Hnd Hp.
   pose proof (map_fst_pair v names0) as Emap.
   assert (Hnd' : NoDup (map fst (map (fun k => (k, v k)) names0))) by (rewrite Emap; exact Hnd).
-  assert (Hp : names_passable (params (mk ps)) (map fst (map (fun k => (k, v k)) names0)) = true).
-  { rewrite Emap. exact (names_avoid_passable ps names0 Hav Hst). }
-  pose proof (partial_names_exact (mk ps) n (map (fun k => (k, v k)) names0) pobj Hv Hnd' Hp) as M.
+  assert (Hp' : names_passable_n (params (mk ps)) n (map fst (map (fun k => (k, v k)) names0)) = true)
+    by (rewrite Emap; exact Hp).
+  pose proof (partial_names_exact (mk ps) n (map (fun k => (k, v k)) names0) pobj Hv Hnd' Hp') as M.
   rewrite Emap in M. exact M.
 Qed.
 
 Example C03_names_exact_nonvacuous :
-  valid_sig (params ex_sig) = true /\ NoDup [3; 4; 2] /\ names_avoid_po (params ex_sig) [3; 4; 2] = true.
-Proof. split; [vm_compute; reflexivity|]. split; [apply nodup3; discriminate|vm_compute; reflexivity]. Qed.
+  valid_sig (params ex_sig) = true /\ NoDup [3; 1; 77].
+Proof. split; [vm_compute; reflexivity|apply nodup3; discriminate]. Qed.
 
 Example C19_names_exact_nonvacuous :
-  valid_sig (params ex_sig) = true /\ NoDup [3; 4; 2] /\ names_avoid_po (params ex_sig) [3; 4; 2] = true /\
-  names_avoid_stars (params ex_sig) [3; 4; 2] = true.
+  valid_sig (params ex_sig) = true /\ NoDup [3; 1; 77] /\ names_passable_n (params ex_sig) 1 [3; 1; 77] = true /\
+  names_avoid_po (params ex_sig) [3; 1; 77] = false.
 Proof.
   split; [vm_compute; reflexivity|]. split; [apply nodup3; discriminate|].
   split; vm_compute; reflexivity.
@@ -93,5 +74,6 @@ Qed.
 
 Print Assumptions C03_names_exact.
 Print Assumptions C19_names_exact.
+Print Assumptions names_avoid_passable_n.
 Print Assumptions C03_names_exact_nonvacuous.
 Print Assumptions C19_names_exact_nonvacuous.
